@@ -1,7 +1,7 @@
 (* Writer facts: totality of the Format programs, write succeeds iff validation accepts, a refusal
    reaches the destination with nothing, destination faults surface as errors. *)
 From Wire Require Import Base.Bytes Model.GoV Model.Codec Model.Message Model.Writer
-     Theory.VerifyFacts Theory.VerifyProps.
+     Model.Reader Theory.VerifyFacts Theory.VerifyProps Theory.ReaderFacts.
 From WireGen Require Import Tags Verify Writer.
 
 Definition fstep_ok (s : fstep) : bool := match s with FUnsupported _ => false | _ => true end.
@@ -83,4 +83,107 @@ Theorem no_error_means_everything_delivered dest r :
 Proof.
   destruct r as [t| |]; cbn; try discriminate. intros H. exists t. split; [reflexivity|].
   apply Nat.ltb_ge in H. apply firstn_all2. exact H.
+Qed.
+
+(* ---- C07: structure of the emitted text ---- *)
+From Coq Require Import Sorted Permutation.
+
+Theorem written_text_structure m variable nl t :
+  write_model m variable nl = WOk t ->
+  exists lines, plan_lines writer_plan m variable = Some lines /\ t = join_with nl (sort_lines lines) ++ nl.
+Proof.
+  unfold write_model. destruct (verify m); try discriminate. destruct (writer_check m); try discriminate.
+  destruct (plan_lines writer_plan m variable) as [lines|]; [|discriminate].
+  intros H. inversion H. exists lines. auto.
+Qed.
+
+Lemma insert_sorted_perm x l : Permutation (x :: l) (insert_sorted x l).
+Proof.
+  induction l as [|y l IH]; cbn; [reflexivity|].
+  destruct (bytes_leb x y); [reflexivity|]. rewrite perm_swap. constructor. exact IH.
+Qed.
+
+(* slices.Sort: the emitted lines are a permutation of the assembled lines ... *)
+Theorem sort_lines_perm l : Permutation l (sort_lines l).
+Proof.
+  induction l as [|x l IH]; cbn; [reflexivity|].
+  rewrite <- insert_sorted_perm. constructor. exact IH.
+Qed.
+
+(* a <= b as "not b < a": total and transitive because the byte order is a strict total order *)
+Fixpoint bytes_cmp (a b : bytes) : comparison :=
+  match a, b with
+  | [], [] => Eq
+  | [], _ :: _ => Lt
+  | _ :: _, [] => Gt
+  | x :: a', y :: b' => match N.compare (bN x) (bN y) with Eq => bytes_cmp a' b' | c => c end
+  end.
+
+Lemma bytes_ltb_cmp a : forall b, bytes_ltb a b = match bytes_cmp a b with Lt => true | _ => false end.
+Proof.
+  induction a as [|x a IH]; intros [|y b]; cbn; try reflexivity.
+  destruct (N.compare_spec (bN x) (bN y)) as [E|E|E].
+  - rewrite E, N.ltb_irrefl. apply IH.
+  - replace (bN x <? bN y)%N with true by (symmetry; apply N.ltb_lt; exact E). reflexivity.
+  - replace (bN x <? bN y)%N with false by (symmetry; apply N.ltb_ge; lia).
+    replace (bN y <? bN x)%N with true by (symmetry; apply N.ltb_lt; exact E). reflexivity.
+Qed.
+
+Lemma bytes_cmp_antisym a : forall b, bytes_cmp b a = CompOpp (bytes_cmp a b).
+Proof.
+  induction a as [|x a IH]; intros [|y b]; cbn; try reflexivity.
+  rewrite (N.compare_antisym (bN x) (bN y)). destruct (N.compare (bN x) (bN y)); cbn; auto.
+Qed.
+
+Lemma bytes_cmp_trans_le a : forall b c, bytes_cmp a b <> Gt -> bytes_cmp b c <> Gt -> bytes_cmp a c <> Gt.
+Proof.
+  induction a as [|x a IH]; intros [|y b] [|z c]; cbn; try congruence.
+  destruct (N.compare_spec (bN x) (bN y)) as [E1|E1|E1]; destruct (N.compare_spec (bN y) (bN z)) as [E2|E2|E2];
+    intros H1 H2; try congruence.
+  - rewrite E1, E2, N.compare_refl. eapply IH; eauto.
+  - replace (bN x ?= bN z)%N with Lt by (symmetry; apply N.compare_lt_iff; lia). discriminate.
+  - replace (bN x ?= bN z)%N with Lt by (symmetry; apply N.compare_lt_iff; lia). discriminate.
+  - replace (bN x ?= bN z)%N with Lt by (symmetry; apply N.compare_lt_iff; lia). discriminate.
+Qed.
+
+Lemma bytes_leb_cmp a b : bytes_leb a b = true <-> bytes_cmp a b <> Gt.
+Proof.
+  unfold bytes_leb. rewrite bytes_ltb_cmp, (bytes_cmp_antisym a b).
+  destruct (bytes_cmp a b); cbn; split; congruence.
+Qed.
+
+Lemma bytes_leb_total a b : bytes_leb a b = true \/ bytes_leb b a = true.
+Proof.
+  rewrite !bytes_leb_cmp, (bytes_cmp_antisym a b). destruct (bytes_cmp a b); cbn; [left|left|right]; congruence.
+Qed.
+
+Lemma bytes_leb_trans a b c : bytes_leb a b = true -> bytes_leb b c = true -> bytes_leb a c = true.
+Proof. rewrite !bytes_leb_cmp. apply bytes_cmp_trans_le. Qed.
+
+Definition sorted_lines (l : list bytes) : Prop := Sorted (fun a b => bytes_leb a b = true) l.
+
+Lemma insert_sorted_sorted x l : sorted_lines l -> sorted_lines (insert_sorted x l).
+Proof.
+  unfold sorted_lines. induction l as [|y l IH]; intros Hs; cbn; [repeat constructor|].
+  destruct (bytes_leb x y) eqn:E.
+  - constructor; [exact Hs|]. constructor. exact E.
+  - inversion Hs as [|? ? Hs' Hhd]; subst. constructor; [apply IH; exact Hs'|].
+    destruct l as [|z l]; cbn.
+    + constructor. destruct (bytes_leb_total x y) as [H|H]; congruence.
+    + destruct (bytes_leb x z); constructor.
+      * destruct (bytes_leb_total x y) as [H|H]; congruence.
+      * inversion Hhd; assumption.
+Qed.
+
+(* ... in ascending byte order *)
+Theorem sort_lines_sorted l : sorted_lines (sort_lines l).
+Proof. induction l as [|x l IH]; cbn; [constructor | apply insert_sorted_sorted; exact IH]. Qed.
+
+(* C02 (first half): whatever the reader accepts can be written, in every layout *)
+Theorem accepted_text_can_be_written preset opts chunks final m variable nl :
+  Model.Reader.read_model preset opts chunks final = Model.Reader.ROk m ->
+  exists t, write_model m variable nl = WOk t.
+Proof.
+  intros H. destruct (Theory.ReaderFacts.accepted_is_valid preset opts chunks final m H) as (Hw & Hv & _).
+  apply (write_succeeds_iff_valid m variable nl Hw formats_total_true). exact Hv.
 Qed.
